@@ -93,6 +93,7 @@ inductive E where
   | gvar (k : Nat)                          -- global list `g<k>` (captured by every function)
   | assign (x : Nat) (e : E)
   | emit (tag : Nat) (arg : Option E)       -- `print '#<tag> {type v} {v}'`
+  | emitI (tag : Nat) (es : List E)         -- `print "#<tag> [{e1}|{e2}|…]"`: an interpolated string with holes
   | mkList (es : List E)
   | mkObj (c : Nat)
   | index (l i : E)
@@ -142,6 +143,7 @@ structure Prog where
 inductive Shown where
   | atom (v : Val)
   | lst (vs : List Val)
+  | parts (vs : List Val)    -- the values of the holes of an interpolated marker line
   deriving DecidableEq, Repr, Inhabited
 
 structure Ev where
